@@ -38,7 +38,7 @@ LEVEL = "exploration"
 ENGINE = "E2-netsim"
 TECHNIQUE = "runtime monitoring: event-order oracle over process/finish/notifyFinish/wire bytes with connection loss injected at every schedule boundary"
 RULE = ("random schedules: 1-6 pipelined requests (GET/HEAD/POST with Content-Length or chunked body, optional Connection: close / "
-        "HTTP/1.0) cut into random segments, interleaved with scheduler steps, transport pause/resume and extra notifyFinish "
+        "HTTP/1.0, optionally one stray blank line before a request / between two pipelined requests) cut into random segments, interleaved with scheduler steps, transport pause/resume and extra notifyFinish "
         "calls; per request the application finishes at once / after k steps (maybe after a partial write) / never and takes "
         "0-3 notifyFinish Deferreds; for each schedule one run per operation boundary with the connection lost there.  A case is "
         "distinct by (schedule, plans, loss point); non-trivial = at least one request was handed to the application.")
@@ -47,7 +47,8 @@ ASSUMPTIONS = ["trusted base: netsim.SimTransport (write after loss is dropped; 
                "refhttp.read_responses decides which responses are complete on the wire"]
 SHARDS = {"quick": 4, "thorough": 16}
 FLOORS = {"runs": 5000, "process_events": 5000, "notify_fired_ok": 2000, "notify_fired_fail": 2000, "loss_while_in_progress": 1000,
-          "responses_on_wire_checked": 3000, "pipelined_handover_inside_finish": 300, "pause_ops": 500, "finish_after_loss_raised": 100}
+          "responses_on_wire_checked": 3000, "pipelined_handover_inside_finish": 300, "pause_ops": 500, "finish_after_loss_raised": 100,
+          "process_after_stray_blank_line": 500}
 READY = True
 
 
@@ -101,8 +102,15 @@ def gen_schedule(rng):
                 lines.append(b"Content-Length: %d" % len(body))
                 payload = body
         raw = method + b" /r%d " % k + version + b"\r\n" + b"\r\n".join(lines) + b"\r\n\r\n" + payload
-        reqs.append({"method": method, "closing": closing, "bytes": raw})
-        stream += raw
+        # the one extra blank line some clients send after a request (twisted tolerates exactly one
+        # before each request line; RFC 9112 2.2): before the first request, after bodies and after
+        # body-less requests, i.e. also between two pipelined requests
+        stray = b""
+        r = rng.random()
+        if (k == 0 and r < 0.06) or (k > 0 and r < 0.25):
+            stray = b"\r\n"
+        reqs.append({"method": method, "closing": closing, "bytes": raw, "stray_crlf_before": bool(stray)})
+        stream += stray + raw
     pieces = netsim.random_split(rng, stream, max_piece=80) if rng.random() < 0.8 else [stream]
     if len(pieces) > 14:  # keep schedules short enough to try every boundary
         step = len(pieces) // 14 + 1
@@ -144,6 +152,8 @@ class World:
         inside = [a["k"] for a in self.apps if a["finish_called"] and not a["finished"] and a["finish_raised"] is None]
         self.log.append(("process", k, {"inside_finish_of": inside}))
         self.ctx.count("process_events")
+        if 0 <= k < len(self.reqs) and self.reqs[k].get("stray_crlf_before"):
+            self.ctx.count("process_after_stray_blank_line")
         if inside:
             self.ctx.count("pipelined_handover_inside_finish")
         if self.lost:
